@@ -205,6 +205,47 @@ apply_rule(hx_job *j, const char *f, const char *c)
                 t->msg_len_to_hash_in_bytes += 1;
         else if (IS("ccm_hash_off", "differs"))
                 t->hash_start_src_offset_in_bytes += 1;
+        else if (IS("cipher_len", "huge"))
+                t->msg_len_to_cipher_in_bytes = 1ULL << 61;
+        else if (IS("des3_k1", "null") || IS("des3_k2", "null") || IS("des3_k3", "null")) {
+                static const void *kp[3];
+                const void *const *cur = (const void *const *) (sp->dir == IMB_DIR_ENCRYPT ? t->enc_keys : t->dec_keys);
+                memcpy(kp, cur, sizeof(kp));
+                kp[f[6] - '1'] = NULL;
+                t->enc_keys = t->dec_keys = kp;
+        } else if (IS("ccm_hash_len", "over16"))
+                t->msg_len_to_hash_in_bytes = 65536;
+        else if (IS("docsis_crc", "cipher_too_long"))
+                t->msg_len_to_cipher_in_bytes = t->msg_len_to_hash_in_bytes;
+        else if (IS("docsis_crc", "offset_below"))
+                t->cipher_start_src_offset_in_bytes = t->hash_start_src_offset_in_bytes + 11;
+        else if (IS("docsis_crc", "hash_over16"))
+                t->msg_len_to_hash_in_bytes = 65536;
+        else if (IS("cipher_func", "null"))
+                t->cipher_func = NULL;
+        else if (IS("hash_func", "null"))
+                t->hash_func = NULL;
+        else if (IS("pon_dst", "elsewhere"))
+                t->dst = t->dst + 4;
+        else if (IS("cipher_len", "unaligned4"))
+                t->msg_len_to_cipher_in_bytes += 2;
+        else if (IS("cipher_len", "overpon"))
+                t->msg_len_to_cipher_in_bytes = (1 << 14) + 4;
+        else if (IS("key_len", "pon32"))
+                t->key_len_in_bytes = 32;
+        else if (IS("pon_pli", "plus1") || IS("pon_pli", "plus4")) {
+                /* PLI just above the ciphered range (the header is caller data: the snapshot follows) */
+                uint32_t pli = (uint32_t) t->msg_len_to_cipher_in_bytes + (c[4] == '1' ? 1 : 4);
+                uint8_t *h = j->src + sp->hoff;
+                h[0] = (uint8_t) (pli >> 6);
+                h[1] = (uint8_t) ((h[1] & 0x03) | ((pli & 0x3f) << 2));
+                memcpy(j->src_snapshot + sp->hoff, h, 2);
+        } else if (IS("hash_len", "unaligned4"))
+                t->msg_len_to_hash_in_bytes += 2;
+        else if (IS("hash_len", "lt8"))
+                t->msg_len_to_hash_in_bytes = 4;
+        else if (IS("hash_len", "overpon"))
+                t->msg_len_to_hash_in_bytes = (1 << 14) + 8 + 4;
         else if (IS("chain_order", "flipped"))
                 t->chain_order = t->chain_order == IMB_ORDER_CIPHER_HASH ? IMB_ORDER_HASH_CIPHER
                                                                          : IMB_ORDER_CIPHER_HASH;
@@ -342,6 +383,239 @@ followup_ok(hx_rng *g)
         return ok;
 }
 
+
+/* ---------- scatter-gather suites (GCM_SGL, CHACHA20_POLY1305_SGL): hand-built sessions ---------- */
+static long nsgl;
+typedef struct {
+        int gcm, kl;
+        struct gcm_key_data gk __attribute__((aligned(64)));
+        struct gcm_context_data gctx __attribute__((aligned(64)));
+        struct chacha20_poly1305_context_data cctx __attribute__((aligned(64)));
+        uint8_t key[32], iv[12], aad[20], tag[16], in[3][80], out[3][80];
+        struct IMB_SGL_IOV iov[3];
+} sgl_env;
+static const uint32_t sgl_len[3] = { 33, 64, 17 };
+
+static void
+sgl_fill(sgl_env *e, hx_rng *g, int gcm)
+{
+        memset(e, 0, sizeof(*e));
+        e->gcm = gcm;
+        e->kl = gcm ? 16 + 8 * (int) hx_below(g, 3) : 32;
+        hx_fill(g, e->key, 32);
+        hx_fill(g, e->iv, 12);
+        hx_fill(g, e->aad, 20);
+        for (int i = 0; i < 3; i++) {
+                hx_fill(g, e->in[i], 80);
+                memset(e->out[i], 0xEE, 80);
+        }
+        memset(e->tag, 0xEE, 16);
+        if (gcm) {
+                if (e->kl == 16)
+                        IMB_AES128_GCM_PRE(M, e->key, &e->gk);
+                else if (e->kl == 24)
+                        IMB_AES192_GCM_PRE(M, e->key, &e->gk);
+                else
+                        IMB_AES256_GCM_PRE(M, e->key, &e->gk);
+        }
+}
+
+/* state: 0 init 1 update 2 complete 3 all; seg = which segment the job carries (-1 none) */
+static void
+sgl_job(sgl_env *e, IMB_JOB *j, int state, int seg)
+{
+        memset(j, 0, sizeof(*j));
+        j->cipher_direction = IMB_DIR_ENCRYPT;
+        j->chain_order = IMB_ORDER_CIPHER_HASH;
+        j->iv = e->iv;
+        j->iv_len_in_bytes = 12;
+        j->auth_tag_output = e->tag;
+        j->auth_tag_output_len_in_bytes = 16;
+        if (e->gcm) {
+                j->cipher_mode = IMB_CIPHER_GCM_SGL;
+                j->hash_alg = IMB_AUTH_GCM_SGL;
+                j->enc_keys = j->dec_keys = &e->gk;
+                j->key_len_in_bytes = (uint64_t) e->kl;
+                j->u.GCM.aad = e->aad;
+                j->u.GCM.aad_len_in_bytes = 20;
+                j->u.GCM.ctx = &e->gctx;
+        } else {
+                j->cipher_mode = IMB_CIPHER_CHACHA20_POLY1305_SGL;
+                j->hash_alg = IMB_AUTH_CHACHA20_POLY1305_SGL;
+                j->enc_keys = j->dec_keys = e->key;
+                j->key_len_in_bytes = 32;
+                j->u.CHACHA20_POLY1305.aad = e->aad;
+                j->u.CHACHA20_POLY1305.aad_len_in_bytes = 20;
+                j->u.CHACHA20_POLY1305.ctx = &e->cctx;
+        }
+        j->sgl_state = state == 0 ? IMB_SGL_INIT : state == 1 ? IMB_SGL_UPDATE : state == 2 ? IMB_SGL_COMPLETE : IMB_SGL_ALL;
+        if (state == 3) {
+                for (int i = 0; i < 3; i++) {
+                        e->iov[i].in = e->in[i];
+                        e->iov[i].out = e->out[i];
+                        e->iov[i].len = sgl_len[i];
+                }
+                j->sgl_io_segs = e->iov;
+                j->num_sgl_io_segs = 3;
+        } else if (seg >= 0) {
+                j->src = e->in[seg];
+                j->dst = e->out[seg];
+                j->msg_len_to_cipher_in_bytes = sgl_len[seg];
+                j->msg_len_to_hash_in_bytes = sgl_len[seg];
+        }
+}
+
+/* returns status or -sig */
+static int
+sgl_submit(const IMB_JOB *tj, int *err)
+{
+        int sig = sigsetjmp(hx_fault_jmp, 1);
+        if (sig != 0) {
+                alarm(0);
+                fresh_mgr();
+                return -sig;
+        }
+        alarm(20);
+        IMB_JOB *slot = (IMB_JOB *) hx_call((void *) M->get_next_job, 1, (uint64_t) M);
+        *slot = *tj;
+        IMB_JOB *r = (IMB_JOB *) hx_call((void *) M->submit_job, 1, (uint64_t) M);
+        *err = M->imb_errno;
+        if (!r)
+                r = (IMB_JOB *) hx_call((void *) M->flush_job, 1, (uint64_t) M);
+        alarm(0);
+        return (r == slot) ? (int) r->status : -2;
+}
+
+/* runs the accepted prefix of a session up to (not including) the job of state `state`; returns 0 when accepted */
+static int
+sgl_prefix(sgl_env *e, int state)
+{
+        IMB_JOB j;
+        int err = 0;
+        if (state == 1 || state == 2) {
+                sgl_job(e, &j, 0, e->gcm ? -1 : 0);
+                if (sgl_submit(&j, &err) != IMB_STATUS_COMPLETED)
+                        return 1;
+        }
+        if (state == 2) {
+                sgl_job(e, &j, 1, 1);
+                if (sgl_submit(&j, &err) != IMB_STATUS_COMPLETED)
+                        return 1;
+        }
+        return 0;
+}
+
+static int
+sgl_apply(sgl_env *e, IMB_JOB *j, const char *f, const char *c)
+{
+#define IS(a, b) (!strcmp(f, a) && !strcmp(c, b))
+        if (IS("hash_alg", "foreign"))
+                j->hash_alg = IMB_AUTH_HMAC_SHA_1;
+        else if (IS("keys", "null"))
+                j->enc_keys = j->dec_keys = NULL;
+        else if (IS("key_len", "bad"))
+                j->key_len_in_bytes = e->gcm ? 8 : 16;
+        else if (IS("iv", "null"))
+                j->iv = NULL;
+        else if (IS("iv_len", "zero"))
+                j->iv_len_in_bytes = 0;
+        else if (IS("iv_len", "bad"))
+                j->iv_len_in_bytes = 8;
+        else if (IS("sgl_ctx", "null")) {
+                if (e->gcm)
+                        j->u.GCM.ctx = NULL;
+                else
+                        j->u.CHACHA20_POLY1305.ctx = NULL;
+        } else if (IS("sgl_state", "bad"))
+                j->sgl_state = (IMB_SGL_STATE) 9;
+        else if (IS("src", "null"))
+                j->src = NULL;
+        else if (IS("dst", "null"))
+                j->dst = NULL;
+        else if (IS("cipher_len", "huge"))
+                j->msg_len_to_cipher_in_bytes = 1ULL << 61;
+        else if (IS("seg_in", "null"))
+                e->iov[1].in = NULL;
+        else if (IS("seg_out", "null"))
+                e->iov[1].out = NULL;
+        else if (IS("seg_len", "huge"))
+                e->iov[0].len = 1ULL << 61;
+        else if (IS("tag", "null"))
+                j->auth_tag_output = NULL;
+        else if (IS("tag_len", "zero"))
+                j->auth_tag_output_len_in_bytes = 0;
+        else if (IS("tag_len", "over"))
+                j->auth_tag_output_len_in_bytes = 17;
+        else if (IS("tag_len", "other"))
+                j->auth_tag_output_len_in_bytes = 12;
+        else if (IS("aad", "null")) {
+                if (e->gcm)
+                        j->u.GCM.aad = NULL;
+                else
+                        j->u.CHACHA20_POLY1305.aad = NULL;
+        } else
+                return 0;
+#undef IS
+        return 1;
+}
+
+static void
+sgl_rule(const char *kind, const char *field, const char *cls, int exp, hx_rng *g)
+{
+        static sgl_env e __attribute__((aligned(64)));
+        const int gcm = strncmp(kind, "GCM_SGL", 7) == 0;
+        const char *stn = strchr(kind, '/') + 1;
+        const int state = !strcmp(stn, "init") ? 0 : !strcmp(stn, "update") ? 1 : !strcmp(stn, "complete") ? 2 : 3;
+        const int seg = state == 3 ? -1 : (state == 0 ? (gcm ? -1 : 0) : state == 1 ? 1 : 2);
+        IMB_JOB j;
+        int e0 = 0, e1 = 0;
+        /* baseline: the same job without the violation is accepted */
+        sgl_fill(&e, g, gcm);
+        int base_st = sgl_prefix(&e, state) ? -9 : 0;
+        if (base_st == 0) {
+                sgl_job(&e, &j, state, seg);
+                base_st = sgl_submit(&j, &e0);
+        }
+        /* the violating job on a fresh session */
+        uint64_t seed2 = hx_rand(g);
+        hx_rng g2;
+        hx_seed(&g2, seed2);
+        sgl_fill(&e, &g2, gcm);
+        int st = -9, known = 0;
+        if (sgl_prefix(&e, state) == 0) {
+                uint8_t out_pre[3][80], tag_pre[16];
+                memcpy(out_pre, e.out, sizeof(out_pre));
+                memcpy(tag_pre, e.tag, 16);
+                /* segments already ciphered by the prefix are not part of the comparison */
+                sgl_job(&e, &j, state, seg);
+                known = sgl_apply(&e, &j, field, cls);
+                memcpy(out_pre, e.out, sizeof(out_pre));
+                st = sgl_submit(&j, &e1);
+                int unt = memcmp(out_pre, e.out, sizeof(out_pre)) == 0 && memcmp(tag_pre, e.tag, 16) == 0;
+                int q1 = (int) IMB_QUEUE_SIZE(M);
+                int next_ok = followup_ok(g);
+                nsgl++;
+                tr_begin("InvSgl");
+                tr_str("kind", kind);
+                tr_int("mode", gcm ? IMB_CIPHER_GCM_SGL : IMB_CIPHER_CHACHA20_POLY1305_SGL);
+                tr_str("state", stn);
+                tr_str("field", field);
+                tr_str("cls", cls);
+                tr_int("exp", exp);
+                tr_int("known", known);
+                tr_int("base_st", base_st);
+                tr_int("base_errno", e0);
+                tr_int("st", st);
+                tr_int("errno", e1);
+                tr_int("untouched", unt);
+                tr_int("qsz", q1);
+                tr_int("next_ok", next_ok);
+                tr_int("abi", (long long) hx_abi_viol_bits);
+                tr_end();
+        }
+        ga_reset();
+}
+
 int
 drv_invalid(int argc, char **argv)
 {
@@ -386,10 +660,19 @@ drv_invalid(int argc, char **argv)
                 int exp = (int) jint(line, "err");
                 if (!kind[0])
                         continue;
+                if (strchr(kind, '/')) {
+                        sgl_rule(kind, field, cls, exp, &g);
+                        continue;
+                }
                 hx_spec sp;
                 if (!hx_spec_from_kind(kind, &g, &sp))
                         return 2;
                 /* NULL src/dst is a violation only when there is something to cipher */
+                hx_docsis_shape = 2; /* DOCSIS+CRC32 rules are stated for the cipher+CRC shape */
+                while (sp.cm == IMB_CIPHER_NULL && !strcmp(field, "src") && sp.hlen == 0)
+                        hx_spec_from_kind(kind, &g, &sp); /* a NULL source matters only with something to hash */
+                while (sp.cm == IMB_CIPHER_PON_AES_CNTR && sp.len < 8)
+                        hx_spec_from_kind(kind, &g, &sp); /* PON rules are stated for a non-empty ciphered range */
                 while ((!strcmp(field, "src") || !strcmp(field, "dst")) && sp.cm != IMB_CIPHER_NULL && sp.len == 0)
                         hx_spec_from_kind(kind, &g, &sp);
                 sp.placement = GA_SLACK;
@@ -487,6 +770,7 @@ drv_invalid(int argc, char **argv)
         tr_begin("InvEnd");
         tr_int("n", n);
         tr_int("nb", nb);
+        tr_int("nsgl", nsgl);
         tr_int("unknown", unknown);
         tr_end();
         fclose(hx_trace);
